@@ -10,6 +10,10 @@ pub assume_specification<T: Ord>[ core::cmp::max::<T> ](a: T, b: T) -> (r: T)
     ensures T::obeys_cmp_spec() ==> r == (if a.cmp_spec(&b) == Ordering::Greater { a } else { b });
 pub assume_specification<T: Ord>[ core::cmp::min::<T> ](a: T, b: T) -> (r: T)
     ensures T::obeys_cmp_spec() ==> r == (if a.cmp_spec(&b) == Ordering::Greater { b } else { a });
+/// `Option::map_or`: the default for None, else the mapper's result
+pub assume_specification<T, U, F: FnOnce(T) -> U>[ Option::<T>::map_or ](o: Option<T>, default: U, f: F) -> (r: U)
+    requires o is Some ==> f.requires((o->Some_0,))
+    ensures match o { Some(x) => f.ensures((x,), r), None => r == default };
 /// `impl<T> From<T> for Option<T>` wraps in Some
 pub assume_specification<T>[ <Option<T> as From<T>>::from ](t: T) -> (r: Option<T>)
     ensures r == Some(t);
